@@ -3,4 +3,5 @@ coq/Raft, correspondence of that model with the implementation, runtime monitor 
 from props import raftcommon as R
 
 PROPS = ('C03',)
-correspondence, search, replay = R.standard_module('C03', PROPS)
+# two leaders of one term show first as two different entries under one (position, term): a C04 log-matching record
+correspondence, search, replay = R.standard_module('C03', PROPS, {'scenario:role_hook_raises_on_step_down': ('C04',)})
